@@ -32,6 +32,7 @@ var commands = map[string]func([]string){
 	"cfgprobe":   cmdCfgProbe,
 	"plant":      cmdPlant,
 	"gtldgen":    cmdGtldGen,
+	"validity":   cmdValidity,
 }
 
 func main() {
